@@ -201,12 +201,12 @@ Definition ex_env : list (string * string) :=
   [("P_M_B", "e2"); ("P_L_2", "z"); ("OTHER", "ignored"); ("P_M_N__K", "u")].
 
 Example domain_nonvacuous :
-  exists tenv, domain (fun s => Leaf s) "P_" ex_d ex_f ex_env tenv /\ length tenv = 3.
+  exists tenv, domain true (fun s => Leaf s) "P_" ex_d ex_f ex_env tenv /\ length tenv = 3.
 Proof.
   eexists. unfold domain. splits.
   - vm_compute. reflexivity.
   - apply in_scope_b_sound. vm_compute. reflexivity.
-  - vm_compute. reflexivity.
+  - left. reflexivity.
   - vm_compute. reflexivity.
   - reflexivity.
 Qed.
@@ -273,11 +273,11 @@ Definition ex_cenv : list (string * string) :=
 
 Example split_example :
   exists tenv,
-    domain (fun s => Leaf s) "P_" [] ex_cf ex_cenv tenv /\ domain (fun s => Leaf s) "P_" [] ex_c [] [] /\
+    domain true (fun s => Leaf s) "P_" [] ex_cf ex_cenv tenv /\ domain true (fun s => Leaf s) "P_" [] ex_c [] [] /\
     split_of ex_c ex_cf tenv.
 Proof.
   eexists. splits.
-  - unfold domain. splits; [vm_compute; reflexivity | apply in_scope_b_sound; vm_compute; reflexivity | vm_compute; reflexivity ..].
-  - unfold domain. splits; [vm_compute; reflexivity | apply in_scope_b_sound; vm_compute; reflexivity | vm_compute; reflexivity ..].
+  - unfold domain. splits; [vm_compute; reflexivity | apply in_scope_b_sound; vm_compute; reflexivity | left; reflexivity | vm_compute; reflexivity].
+  - unfold domain. splits; [vm_compute; reflexivity | apply in_scope_b_sound; vm_compute; reflexivity | left; reflexivity | vm_compute; reflexivity].
   - apply split_of_b_sound. vm_compute. reflexivity.
 Qed.
